@@ -78,6 +78,11 @@ fn observe(sb: &Sandbox) -> (Tree, Tree) {
         }
         if let Some(rest) = k.strip_prefix(&format!("{root_rel}/")) {
             inside.insert(rest.to_string(), v);
+        } else if k.ends_with('/') {
+            // a directory outside the root: its modification time shows an entry that was created
+            // and removed again (a temporary file next to the root leaves nothing else behind)
+            let m = std::fs::metadata(sb.top.join("l1").join(&k)).and_then(|m| m.modified()).ok().and_then(|t| t.duration_since(std::time::UNIX_EPOCH).ok()).map(|d| d.as_nanos().to_string().into_bytes());
+            outside.insert(k, m);
         } else {
             outside.insert(k, v);
         }
@@ -191,12 +196,15 @@ enum Arg {
     PatchUpdate,
     PatchMoveTo,
     CheckpointCreate,
+    /// a checkpoint request of two files: an existing file of the workspace FIRST, then the path
+    /// under test (a refusal of the second must leave nothing of the first behind)
+    CheckpointCreateSecondFile,
     CheckpointRewindId,
     BashCwd,
     TaskCwd,
 }
 
-const ARGS: [Arg; 14] = [
+const ARGS: [Arg; 15] = [
     Arg::Read,
     Arg::WriteAtomic,
     Arg::WriteAppend,
@@ -208,6 +216,7 @@ const ARGS: [Arg; 14] = [
     Arg::PatchUpdate,
     Arg::PatchMoveTo,
     Arg::CheckpointCreate,
+    Arg::CheckpointCreateSecondFile,
     Arg::CheckpointRewindId,
     Arg::BashCwd,
     Arg::TaskCwd,
@@ -233,7 +242,7 @@ fn invocation(arg: Arg, p: &str) -> Option<ToolInvocation> {
             json!({"patch": format!("*** Begin Patch\n*** Update File: d/b\n*** Move to: {p}\n@@\n+W\n*** End Patch")}),
         ),
         Arg::BashCwd => inv("bash", json!({"command": "echo probe > probe.txt; cat a 2>/dev/null", "cwd": p})),
-        Arg::CheckpointCreate | Arg::CheckpointRewindId | Arg::TaskCwd => return None,
+        Arg::CheckpointCreate | Arg::CheckpointCreateSecondFile | Arg::CheckpointRewindId | Arg::TaskCwd => return None,
     })
 }
 
@@ -327,8 +336,9 @@ fn run_task_cwd(ctx: &Ctx, p: &str) -> Outcome {
 
 fn run_case(ctx: &Ctx, arg: Arg, p: &str, seq: &mut u64) -> Outcome {
     match arg {
-        Arg::CheckpointCreate => {
-            let events = ctx.runner.create_checkpoint("sess", seq, "l".into(), vec![PathBuf::from(p)]);
+        Arg::CheckpointCreate | Arg::CheckpointCreateSecondFile => {
+            let files = if arg == Arg::CheckpointCreate { vec![PathBuf::from(p)] } else { vec![PathBuf::from("d/b"), PathBuf::from(p)] };
+            let events = ctx.runner.create_checkpoint("sess", seq, "l".into(), files);
             let mut out = outcome_of(&events);
             // a created checkpoint is then rewound: rewind must not reach outside either
             if let Some(id) = events.iter().find_map(|e| match &e.kind {
@@ -356,7 +366,7 @@ fn run_case(ctx: &Ctx, arg: Arg, p: &str, seq: &mut u64) -> Outcome {
 fn must_refuse(ctx: &Ctx, arg: Arg, p: &str) -> bool {
     match arg {
         Arg::CheckpointRewindId => false, // an id, not a path: only "unknown id fails" applies (checked via no-effect)
-        Arg::CheckpointCreate => has_parent(p) || (is_abs(p) && !Path::new(p).starts_with(&ctx.sb.root)),
+        Arg::CheckpointCreate | Arg::CheckpointCreateSecondFile => has_parent(p) || (is_abs(p) && !Path::new(p).starts_with(&ctx.sb.root)),
         _ => has_parent(p) || is_abs(p),
     }
 }
